@@ -37,7 +37,8 @@ using blas::filling;
 
 template<class Array2D, class TAU, class Allocator>
 auto geqrf(Array2D&& aa, TAU& tau, Allocator alloc) -> Array2D&& {
-//  assert( stride(~a) == 1);
+	assert( size(~aa) <= 1 || (~aa).stride() == 1 );  // LAPACK cannot skip elements inside a row of the (row-major) operand
+	assert( size(tau) <= 1 || tau.stride() == 1 );    // nor between the scalar factors
 	assert( size(tau) == std::min(size(~aa), size(aa)) );
 
 	double dwork;  // NOLINT(cppcoreguidelines-init-variables) delayed initialization
